@@ -217,6 +217,7 @@ type W struct {
 	Sec    Secrets
 	Creds  []string // complete credentials handed out: codes, access / refresh tokens, device codes
 	Signer *Signer
+	Failed string // first scene-setting step that did not work
 	Lite   bool // skip the steps that would only add string-decoding forks when the secrets are symbolic
 }
 
@@ -304,20 +305,33 @@ func (w *W) cred(c string) string {
 	return c
 }
 
-func ok(err error, step string) {
+// sceneFail unwinds a flow whose scene-setting step did not work; the storage checks still run on
+// what was recorded up to that point, and the failure is asserted afterwards.
+type sceneFail struct{}
+
+func (w *W) expect(cond bool, step string) {
+	if !cond {
+		if w.Failed == "" {
+			w.Failed = step
+		}
+		panic(sceneFail{})
+	}
+}
+
+func (w *W) ok(err error, step string) {
 	zz.Observe(strings.ReplaceAll(step, " ", "-"), world.ErrName(err))
-	zz.Assert(err == nil, "scene: "+step+" succeeds")
+	w.expect(err == nil, step+" succeeds")
 }
 
 // authorize runs the authorization endpoint and returns the response.
 func (w *W) authorize(form url.Values, step string) fosite.AuthorizeResponder {
 	ar, err := w.P.NewAuthorizeRequest(w.Ctx, get(form))
-	ok(err, step+" request")
+	w.ok(err, step+" request")
 	for _, s := range ar.GetRequestedScopes() {
 		ar.GrantScope(s)
 	}
 	resp, err := w.P.NewAuthorizeResponse(w.Ctx, ar, session())
-	ok(err, step+" response")
+	w.ok(err, step+" response")
 	w.cred(resp.GetCode())
 	w.cred(resp.GetParameters().Get("access_token"))
 	return resp
@@ -375,7 +389,7 @@ func (w *W) redeem(code string, extra url.Values, step string) fosite.AccessResp
 		form[k] = v
 	}
 	resp, err := w.token(form, step)
-	ok(err, step)
+	w.ok(err, step)
 	return resp
 }
 
@@ -388,7 +402,7 @@ func (w *W) revoke(tok, hint string, step string) {
 	if hint != "" {
 		form.Set("token_type_hint", hint)
 	}
-	ok(w.P.NewRevocationRequest(w.Ctx, post(form)), step)
+	w.ok(w.P.NewRevocationRequest(w.Ctx, post(form)), step)
 }
 
 func (w *W) introspect(tok string, use fosite.TokenUse) bool {
@@ -402,7 +416,7 @@ func (w *W) introspectEndpoint(tok string, step string) {
 	r := post(form)
 	r.Header.Set("Authorization", "Basic "+base64.StdEncoding.EncodeToString([]byte("c1:"+w.Sec.ClientSecret)))
 	_, err := w.P.NewIntrospectionRequest(w.Ctx, r, session())
-	ok(err, step)
+	w.ok(err, step)
 }
 
 func s256(verifier string) string {
@@ -454,18 +468,18 @@ func (w *W) par(scope, responseType string, step string) string {
 	form.Set("code_challenge", s256(w.Sec.Verifier))
 	form.Set("code_challenge_method", "S256")
 	ar, err := w.P.NewPushedAuthorizeRequest(w.Ctx, post(form))
-	ok(err, step+" pushed request")
+	w.ok(err, step+" pushed request")
 	resp, err := w.P.NewPushedAuthorizeResponse(w.Ctx, ar, session())
-	ok(err, step+" pushed response")
+	w.ok(err, step+" pushed response")
 	return resp.GetRequestURI()
 }
 
 func (w *W) device(scope string, step string) (deviceCode string) {
 	form := url.Values{"client_id": {"c1"}, "client_secret": {w.Sec.ClientSecret}, "scope": {scope}}
 	dr, err := w.P.NewDeviceRequest(w.Ctx, post(form))
-	ok(err, step+" device request")
+	w.ok(err, step+" device request")
 	resp, err := w.P.NewDeviceResponse(w.Ctx, dr, session())
-	ok(err, step+" device response")
+	w.ok(err, step+" device response")
 	deviceCode = w.cred(resp.GetDeviceCode())
 	w.cred(strings.TrimPrefix(deviceCode, "ory_dc_"))
 	// the user approves on the verification page: the application loads the request by user code and accepts it
@@ -473,7 +487,7 @@ func (w *W) device(scope string, step string) (deviceCode string) {
 	for _, r := range w.Spy.MemoryStore.DeviceAuths {
 		stored = r
 	}
-	zz.Assert(stored != nil, "scene: "+step+" device request stored")
+	w.expect(stored != nil, step+" device request stored")
 	for _, s := range stored.GetRequestedScopes() {
 		stored.GrantScope(s)
 	}
@@ -482,12 +496,19 @@ func (w *W) device(scope string, step string) (deviceCode string) {
 }
 
 func (w *W) run(flow int) {
+	defer func() {
+		if r := recover(); r != nil {
+			if _, scene := r.(sceneFail); !scene {
+				panic(r)
+			}
+		}
+	}()
 	switch flow {
 	case flowCodePKCE:
 		r := w.codeFlow("offline photos", true, "code")
 		r2, err := w.refresh(refreshOf(r), "refresh")
-		ok(err, "refresh")
-		zz.Assert(w.introspect(r2.GetAccessToken(), fosite.AccessToken), "scene: refreshed access token is active")
+		w.ok(err, "refresh")
+		w.expect(w.introspect(r2.GetAccessToken(), fosite.AccessToken), "refreshed access token is active")
 		if !w.Lite {
 			w.introspectEndpoint(r2.GetAccessToken(), "introspection endpoint")
 		}
@@ -495,45 +516,45 @@ func (w *W) run(flow int) {
 		w.revoke(r2.GetAccessToken(), "", "revoke access token")
 	case flowPassword:
 		r, err := w.token(url.Values{"grant_type": {"password"}, "username": {"peter"}, "password": {w.Sec.Password}, "scope": {"offline photos"}}, "password grant")
-		ok(err, "password grant")
+		w.ok(err, "password grant")
 		_, err = w.refresh(refreshOf(r), "refresh")
-		ok(err, "refresh")
+		w.ok(err, "refresh")
 	case flowClientCredentials:
 		r, err := w.token(url.Values{"grant_type": {"client_credentials"}, "scope": {"photos"}}, "client_credentials grant")
-		ok(err, "client_credentials grant")
-		zz.Assert(w.introspect(r.GetAccessToken(), fosite.AccessToken), "scene: access token is active")
+		w.ok(err, "client_credentials grant")
+		w.expect(w.introspect(r.GetAccessToken(), fosite.AccessToken), "access token is active")
 		w.revoke(r.GetAccessToken(), "access_token", "revoke access token")
 	case flowImplicit:
 		resp := w.authorize(authForm("token", "photos"), "implicit authorize")
 		at := resp.GetParameters().Get("access_token")
-		zz.Assert(at != "", "scene: implicit access token issued")
-		zz.Assert(w.introspect(at, fosite.AccessToken), "scene: implicit access token is active")
+		w.expect(at != "", "implicit access token issued")
+		w.expect(w.introspect(at, fosite.AccessToken), "implicit access token is active")
 		w.revoke(at, "", "revoke access token")
 	case flowRefreshReuse:
 		r := w.codeFlow("offline photos", false, "code")
 		r2, err := w.refresh(refreshOf(r), "refresh 1")
-		ok(err, "refresh 1")
+		w.ok(err, "refresh 1")
 		_, err = w.refresh(refreshOf(r2), "refresh 2")
-		ok(err, "refresh 2")
+		w.ok(err, "refresh 2")
 		// reuse of the first refresh token: refused, the family is revoked
 		_, err = w.refresh(refreshOf(r), "reuse")
 		zz.Observe("reuse", world.ErrName(err))
-		zz.Assert(err != nil, "scene: reused refresh token is refused")
+		w.expect(err != nil, "reused refresh token is refused")
 		// replay of the authorization code: refused, tokens revoked
 		_, err = w.token(url.Values{"grant_type": {"authorization_code"}, "code": {w.Creds[0]}, "redirect_uri": {redirectC1}}, "code replay")
-		zz.Assert(err != nil, "scene: replayed code is refused")
+		w.expect(err != nil, "replayed code is refused")
 	case flowPAR:
 		uri := w.par("offline photos", "code", "par")
 		resp := w.authorize(url.Values{"client_id": {"c1"}, "request_uri": {uri}}, "par authorize")
 		w.redeem(resp.GetCode(), url.Values{"code_verifier": {w.Sec.Verifier}}, "par redeem")
 	case flowOIDCExplicit:
 		r := w.codeFlow("openid offline", true, "oidc code")
-		zz.Assert(r.GetExtra("id_token") != nil, "scene: id token issued")
+		w.expect(r.GetExtra("id_token") != nil, "id token issued")
 		_, err := w.refresh(refreshOf(r), "oidc refresh")
-		ok(err, "oidc refresh")
+		w.ok(err, "oidc refresh")
 	case flowOIDCHybrid:
 		resp := w.authorize(authForm("code id_token", "openid offline"), "hybrid authorize")
-		zz.Assert(resp.GetParameters().Get("id_token") != "", "scene: hybrid id token issued")
+		w.expect(resp.GetParameters().Get("id_token") != "", "hybrid id token issued")
 	case flowDevice, flowDeviceOIDC:
 		scope := "offline photos"
 		if flow == flowDeviceOIDC {
@@ -548,19 +569,19 @@ func (w *W) run(flow int) {
 				stored = r
 			}
 			sig := dc[strings.LastIndex(dc, ".")+1:]
-			ok(w.Spy.MemoryStore.CreateOpenIDConnectSession(w.Ctx, sig, stored), "device consent stores the oidc session")
+			w.ok(w.Spy.MemoryStore.CreateOpenIDConnectSession(w.Ctx, sig, stored), "device consent stores the oidc session")
 		}
 		r, err := w.token(url.Values{"grant_type": {"urn:ietf:params:oauth:grant-type:device_code"}, "device_code": {dc}}, "device token")
-		ok(err, "device token")
+		w.ok(err, "device token")
 		if flow == flowDeviceOIDC {
-			zz.Assert(r.GetExtra("id_token") != nil, "scene: device id token issued")
+			w.expect(r.GetExtra("id_token") != nil, "device id token issued")
 		}
 		_, err = w.refresh(refreshOf(r), "device refresh")
-		ok(err, "device refresh")
+		w.ok(err, "device refresh")
 	case flowAllCode:
 		r := w.codeFlow("offline photos", true, "code")
 		_, err := w.refresh(refreshOf(r), "refresh")
-		ok(err, "refresh")
+		w.ok(err, "refresh")
 	case flowAllPAROIDC:
 		uri := w.par("openid offline", "code id_token", "par")
 		resp := w.authorize(url.Values{"client_id": {"c1"}, "request_uri": {uri}}, "par hybrid authorize")
@@ -693,11 +714,15 @@ func ZZ_C20_storage() {
 	w := newW(compOf(flow), ConcreteSecrets())
 	w.run(flow)
 	zz.Observe("storage-calls", len(w.Spy.Log))
-	zz.Assert(len(w.Spy.Log) > 0 && len(w.Creds) > 0, "scene: the flow reached the storage layer and handed out credentials")
+	zz.Assert(len(w.Spy.Log) > 0, "scene: the flow reached the storage layer")
 	cs := w.checks(flow)
 	k := zz.Choice("check", len(cs))
 	zz.Observe("check", cs[k].site+" / "+cs[k].kind)
 	w.verify(flow, cs[k])
+	// a step that did not work is reported only after the storage checks ran on what was recorded
+	zz.Observe("failed-step", w.Failed)
+	zz.Assert(w.Failed == "", "scene: every step of the flow works")
+	zz.Assert(len(w.Creds) > 0, "scene: the flow handed out credentials")
 	// covered by the paths whose check passes (a native run stops at the first failing assertion)
 	zz.Cover("flow:"+flowNames[flow], true)
 	zz.Cover("check:"+cs[k].kind, true)
@@ -740,6 +765,7 @@ func ZZ_C20_storage_nonint() {
 	wa.Lite, wb.Lite = true, true
 	wa.run(flow)
 	wb.run(flow)
+	zz.Assert(wa.Failed == "" && wb.Failed == "", "scene: every step of both runs works")
 	zz.Assert(len(wa.Spy.Log) == len(wb.Spy.Log), "both runs make the same number of storage calls")
 	zz.Observe("storage-calls", len(wa.Spy.Log))
 	var stored []int
